@@ -91,6 +91,19 @@ func (t *Terms) Cond(v ssa.Value) Fact {
 		} else if ca, cb, ok := t.compareCall(v.Y); ok && a == "0" {
 			a, b = cb, ca // 0 <op> cmp(x,y)  ≡  y <op> x
 		}
+		// canonical forms for non-negative x: x<1 ≡ x==0, x>0 ≡ x!=0, x>=1 ≡ x!=0, x<=0 ≡ x==0
+		if nonNegValue(v.X) || nonNegValue(v.Y) {
+			switch {
+			case v.Op == token.LSS && b == "1" && nonNegValue(v.X), v.Op == token.LEQ && b == "0" && nonNegValue(v.X):
+				return EQ(a, "0")
+			case v.Op == token.GTR && b == "0" && nonNegValue(v.X), v.Op == token.GEQ && b == "1" && nonNegValue(v.X):
+				return NE(a, "0")
+			case v.Op == token.GTR && a == "1" && nonNegValue(v.Y), v.Op == token.GEQ && a == "0" && nonNegValue(v.Y):
+				return EQ(b, "0")
+			case v.Op == token.LSS && a == "0" && nonNegValue(v.Y), v.Op == token.LEQ && a == "1" && nonNegValue(v.Y):
+				return NE(b, "0")
+			}
+		}
 		switch v.Op {
 		case token.LSS:
 			return LT(a, b)
@@ -184,6 +197,8 @@ type FuncFacts struct {
 	idom    map[*ssa.BasicBlock]*ssa.BasicBlock
 	reach   map[*ssa.BasicBlock]bool
 	memo    map[*ssa.BasicBlock]FactSet
+
+	phiIneqs []*Affine
 }
 
 // NewFuncFacts analyses fn with no pruning.
@@ -430,4 +445,20 @@ func (ff *FuncFacts) Returns() []*ssa.Return {
 		}
 	}
 	return out
+}
+
+// nonNegValue: the value is unsigned or a len/cap result (possibly converted).
+func nonNegValue(v ssa.Value) bool {
+	if isUnsigned(v.Type()) {
+		return true
+	}
+	switch x := v.(type) {
+	case *ssa.Call:
+		if b, ok := x.Call.Value.(*ssa.Builtin); ok && (b.Name() == "len" || b.Name() == "cap") {
+			return true
+		}
+	case *ssa.Convert:
+		return nonNegValue(x.X)
+	}
+	return false
 }
